@@ -401,7 +401,9 @@ class PeriodicReal:
 
     def step(self, act, args):
         if self.jit and act != "stop":
-            self.rq[:] = [(args[-1] - 6) / 4.0]
+            r = (args[-1] - 6) / 4.0
+            # cfg["mirror"]: the same period under the mirrored convention p*(1 + j*(1/2 - r))
+            self.rq[:] = [1.0 - r if self.cfg.get("mirror") else r]
             args = args[:-1]
         try:
             if act == "start":
